@@ -21,6 +21,15 @@ def handleTarget (args : List String) : Option String :=
     let abs := s.head? = some '/'
     let (a, segs) := canonicalTarget (splitSlash c []) { absolute := abs, segs := splitSlash s [] }
     some (encodeStr ((if a then ['/'] else []) ++ joinSlash segs))
+  | [cwd, logical, spelled] => do
+    let c ← decodeStr cwd
+    let s ← decodeStr spelled
+    let cwds ← if logical = "-" then some [splitSlash c []] else do
+      let l ← decodeStr logical
+      some [splitSlash c [], splitSlash l []]
+    let abs := s.head? = some '/'
+    let (a, segs) := canonicalTargetL cwds { absolute := abs, segs := splitSlash s [] }
+    some (encodeStr ((if a then ['/'] else []) ++ joinSlash segs))
   | _ => none
 
 /-- `match-key <walked path>`: the key the rule families match and the baseline key -/
